@@ -60,6 +60,7 @@ func loadGen(dir string) (*Gen, error) {
 	}
 	g.resolveAnnotations()
 	g.computeSummaries()
+	g.computeSpawned()
 	return g, nil
 }
 
@@ -69,7 +70,7 @@ func (g *Gen) translate(fn *ssa.Function) (t *fnTrans, err error) {
 		vals: map[ssa.Value][]string{}, locs: map[ssa.Value]*loc{}, out: map[*ssa.BasicBlock]*State{},
 		edge: map[[2]int]string{}, names: map[string][]nameRef{}, local: map[ssa.Value]bool{},
 		closures: map[ssa.Value]*ssa.MakeClosure{}, sites: map[ssa.Instruction]string{}, siteState: map[string]*State{},
-		uncontracted: map[string]bool{}, rangeOf: map[ssa.Value]*ssa.Range{}, stable: map[ssa.Value]string{}, ghostVals: map[string]sval{}, usedContracts: map[string]bool{}}
+		uncontracted: map[string]bool{}, rangeOf: map[ssa.Value]*ssa.Range{}, stable: map[ssa.Value]string{}, ghostVals: map[string]sval{}, usedContracts: map[string]bool{}, capturedBorrow: map[ssa.Value]bool{}}
 	t.contract = g.contractOf(fn)
 	defer func() {
 		if r := recover(); r != nil {
@@ -133,6 +134,9 @@ func (g *Gen) runAll(funcRe *regexp.Regexp, kinds map[string]bool, timeoutMs int
 		res.funcs++
 		var sel []*Obligation
 		for _, o := range t.c.obls {
+			if t.contract != nil && t.contract.trusted && o.Kind != "canary" {
+				continue // trusted contract: the body is not verified (listed as an assumption)
+			}
 			if kinds != nil && !kinds[o.Kind] && !kinds[strings.SplitN(o.Kind, ".", 2)[0]] {
 				continue
 			}
